@@ -371,6 +371,15 @@ class Scenario:
             self.step(pid, choice)
         return self.trace
 
+    def drain(self, bound=None):
+        """Let every unfinished, un-killed request run to its end (one after the other)."""
+        bound = bound if bound is not None else self.timeout + 20
+        for st in self.procs:
+            k = 0
+            while not (st.finished or st.dead) and k < bound:
+                self.step(st.pid, "none")
+                k += 1
+
     def live(self):
         return [st.pid for st in self.procs if not (st.finished or st.dead)]
 
